@@ -165,6 +165,7 @@ func zzSameOutcome(a, b zzOutcome, id string) {
 	if a.err != nil || b.err != nil {
 		if a.err != nil && b.err != nil {
 			zzvrt.Assert(zzErrClass(a.err) == zzErrClass(b.err), id+":same-error-class")
+			zzvrt.Assert(zzvrt.StrEq(a.err.Error(), b.err.Error()), id+":same-error-text")
 		}
 		return
 	}
